@@ -11,7 +11,7 @@
 EXTENDS Naturals, Sequences, FiniteSets, TLC, SequencesExt
 
 \* ---- tokens ----------------------------------------------------------------------------
-GroupToks == {"ANY", "LOW", "AS", "ASP", "NS", "OPT", "CLS", "CLB", "NEST", "ELW", "BIGW"}
+GroupToks == {"ANY", "LOW", "AS", "ASP", "NS", "OPT", "CLS", "CLB", "NEST", "ELW", "BIGW", "BAD"}
 IsGroup(t) == t \in GroupToks
 
 Conc(t) ==
@@ -31,6 +31,7 @@ Conc(t) ==
     [] t = "~u~"  -> <<"~u~">>     \* a second two-byte character with the SAME first UTF-8 byte as ~e~ (the harness substitutes both)
     [] t = "~e~"  -> <<"~e~">>     \* a non-ASCII literal (the harness substitutes a 2-byte character): ONE character, two bytes
     [] t = "ELW"  -> <<"(", "?", ":", "~e~", "[", "a", "-", "b", "]", "+", ")">>   \* non-ASCII text inside a marker group
+    [] t = "BAD"  -> <<"(", "?", ":", "(", "?", "!", "a", ")", "b", ")">>   \* a look-ahead: the regex engine rejects the expression
     [] t = "BIGW" -> <<"(", "?", ":", "\\", "w", "{", "1", ",", "5", "0", "}", ")">>  \* a Unicode class with a counted repetition: a program of several MiB
 
 RECURSIVE ConcSeq(_)
@@ -51,6 +52,7 @@ InLang(ic, g, s) ==
     [] g = "CLS"  -> Len(s) >= 1
     [] g = "CLB"  -> Len(s) >= 1 /\ \A i \in 1..Len(s) : InSet(ic, s[i], {"a"})
     [] g = "OPT"  -> s = <<>> \/ (Len(s) = 1 /\ InSet(ic, s[1], {"a"}))
+    [] g = "BAD"  -> FALSE      \* a pattern that does not compile matches nothing, warmed or not
     [] g = "BIGW" -> Len(s) >= 1 /\ Len(s) <= 50 /\ \A i \in 1..Len(s) : s[i] \in {"a", "b", "A", "B", "e", "~e~"}
     [] g = "ELW"  -> Len(s) >= 2 /\ s[1] = "~e~" /\ \A i \in 2..Len(s) : InSet(ic, s[i], {"a", "b"})
 
@@ -204,9 +206,10 @@ CacheChildren(ch, i, left, cl, lvl) ==
 CacheItem(it, left, cl, lvl) ==
   IF left = 0 \/ lvl > cl THEN <<it, left>>
   ELSE CASE it.k = "empty" -> <<it, left>>
-         [] it.k = "leaf" -> IF cl = lvl /\ ~it.c THEN <<[it EXCEPT !.c = TRUE], left - 1>> ELSE <<it, left>>
+         \* (an expression the engine rejects stays uncompiled and is not charged to the budget)
+         [] it.k = "leaf" -> IF cl = lvl /\ ~it.c /\ "BAD" \notin ToSet(it.pat) THEN <<[it EXCEPT !.c = TRUE], left - 1>> ELSE <<it, left>>
          [] it.k = "node" ->
-              LET valid == it.n = 0 \/ TokensInChars(it.src, it.n) >= 0
+              LET valid == it.n = 0 \/ (TokensInChars(it.src, it.n) >= 0 /\ "BAD" \notin ToSet(SubSeq(it.src, 1, TokensInChars(it.src, it.n))))
                   doit == cl = lvl /\ ~it.c /\ valid
                   l1 == IF doit THEN left - 1 ELSE left
                   r == CacheChildren(it.ch, 1, l1, cl, lvl + 1)
